@@ -18,8 +18,8 @@ ID = "C03"
 CASES = {"quick": 3000, "thorough": 30000}
 FLOOR = {"quick": 2000, "thorough": 20000}
 FLOOR_COUNTERS = {
-    "quick": {"fits_through_fit_transform": 400, "configured_not_by_constructor": 400, "non_default_containers": 400, "route_pairs_compared": 2500, "captured_matrices": 3000, "arpack_fits": 500, "randomized_fits": 500},
-    "thorough": {"fits_through_fit_transform": 5000, "configured_not_by_constructor": 5000, "non_default_containers": 5000, "route_pairs_compared": 30000, "captured_matrices": 40000, "arpack_fits": 6000, "randomized_fits": 6000},
+    "quick": {"new_sample_pairs_compared": 5000, "other_units": 300, "more_than_4096_rows": 15, "caller_buffers_overwritten_after_fit": 300, "fits_through_fit_transform": 400, "configured_not_by_constructor": 400, "non_default_containers": 400, "route_pairs_compared": 2500, "captured_matrices": 3000, "arpack_fits": 500, "randomized_fits": 500},
+    "thorough": {"new_sample_pairs_compared": 60000, "other_units": 4000, "more_than_4096_rows": 200, "caller_buffers_overwritten_after_fit": 4000, "fits_through_fit_transform": 5000, "configured_not_by_constructor": 5000, "non_default_containers": 5000, "route_pairs_compared": 30000, "captured_matrices": 40000, "arpack_fits": 6000, "randomized_fits": 6000},
 }
 RULE = (
     "case = centred X (tall/wide/square/rank-deficient/decaying spectrum), Y with 1-3 targets (1-D and 2-D), mixing in "
@@ -38,17 +38,29 @@ MIX = (0.0, 0.05, 0.5, 0.5, 0.95, 1.0)
 
 
 def gen(rng, tier, index):
-    kind, X, Y = pc.data(rng, tier, kinds=("tall", "wide", "square", "deficient", "decay", "cliff"))
+    kind, X, Y = pc.data(rng, tier, kinds=("tall",) if index % 40 == 7 else ("tall", "wide", "square", "deficient", "decay", "cliff"))
+    unit = 1.0
+    X0, Y0 = X, Y
+    if rng.random() < 0.3:  # the same table in other units (exact powers of two), features and targets independently
+        unit = float(2.0 ** int(rng.integers(-12, 11)))
+        X, Y = X * unit, Y * float(2.0 ** int(rng.integers(-12, 11)))
     reg = pc.gen_regressor(rng, X, Y)
+    if reg["kind"] == "default" and unit != 1.0:
+        # the default regressor regularises with an ABSOLUTE alpha = 1e-6: in other units it is another (and for large
+        # units a numerically singular) regression, whose fitted values scikit-learn determines only to eps x cond
+        X, Y, unit = X0, Y0, 1.0
     rank = int(np.linalg.matrix_rank(X))
     k = int(rng.integers(1, max(1, rank) + 1))
     if kind == "cliff":
         k = int((np.linalg.svd(X, compute_uv=False) > 0.5 * np.linalg.norm(X, 2)).sum()) + (np.ndim(Y) if rng.random() < 0.5 else 0)
     return {
         "routes": pc.routes(rng),
+        "many_rows": bool(index % 40 == 7),
         "X": X,
         "Y": Y,
         "kind": kind,
+        "unit": unit,
+        "Znew": rng.normal(size=(int(rng.integers(1, 6)), X.shape[1])) * float(np.abs(X).std() or 1.0),  # new samples, not in the row space of X
         "reg": reg,
         "mixing": float(gens.pick(rng, MIX)),
         "k": k,
@@ -62,6 +74,14 @@ def run(case, j):
     pc.use_routes(j, case)
     X, Y, reg, a, k = case["X"], case["Y"], case["reg"], case["mixing"], case["k"]
     n, m = X.shape
+    Zn = case["Znew"] if case.get("Znew") is not None else X[:2] * 1.1
+    # new samples are compared across routes inside the row space of X: outside it the model is only defined through the
+    # regression weights, whose null-space part is arbitrary for rank-deficient X (scikit-learn's solver, not skmatter)
+    _, svx, Vtx = np.linalg.svd(X, full_matrices=True)
+    rk = int((svx > 1e-10 * svx[0]).sum())
+    Nx = Vtx[rk:].T
+    if rk < m:
+        Zn = Zn - (Zn @ Nx) @ Nx.T
     j.tag(f"data:{case['kind']}", f"reg:{reg['kind']}", f"mixing:{a}", "y1d" if np.ndim(Y) == 1 else "y2d")
     if not pc.x_guard(X):
         raise Skip("XtX-eigenvalue-near-tol-cut")
@@ -109,9 +129,16 @@ def run(case, j):
         tol = (1e-5 if "randomized" in name else tolr)
         j.close(f"singular_values_^2 == top-k eigenvalues, decreasing [{name.split('/')[1]}]", est.singular_values_**2, lam, tol * w[0])
         j.close(f"explained_variance_ == eigenvalues/(n-1) [{name.split('/')[1]}]", est.explained_variance_, lam / (n - 1), tol * w[0] / (n - 1))
+        if name.startswith("feature") and rk < m:
+            # (X^T X)^(-1/2) is a pseudo-inverse square root: the feature-space projector lives in the row space of X
+            out = float(np.abs(Nx.T @ est.pxt_).max())
+            j.ok("feature-space projector pxt_ has no component outside the row space of X", out <= 1e-6 * max(float(np.abs(est.pxt_).max()), 1e-300), {"outside": out, "scale": float(np.abs(est.pxt_).max())})
+            j.note("row_space_checks")
         T = j.lib("transform", est.transform, X)
-        views[name] = (T, np.asarray(j.lib("predict", est.predict, X)), j.lib("inverse_transform", est.inverse_transform, T))
+        views[name] = (T, np.asarray(j.lib("predict", est.predict, X)), j.lib("inverse_transform", est.inverse_transform, T), np.asarray(est.transform(Zn)), np.asarray(est.predict(Zn)))
 
+    if case.get("unit", 1.0) != 1.0:
+        j.note("other_units")
     names = list(views)
     sT = max(float(np.sqrt(w[0])), 1e-300)
     sY = max(float(np.abs(Yh).max()), float(np.abs(np.asarray(Y)).max()), 1e-300)
@@ -124,7 +151,15 @@ def run(case, j):
             j.close(f"latent coordinates equal up to sign [{lab}]", A[0], pc.align(A[0], B[0]), tol * sT * 10)
             j.close(f"predictions equal [{lab}]", A[1], B[1], tol * sY * 10)
             j.close(f"reconstructions of X equal [{lab}]", A[2], B[2], tol * sX * 10)
+            sgn = np.sign((np.asarray(A[0]) * np.asarray(B[0])).sum(axis=0))
+            sgn[sgn == 0] = 1.0
+            sZ = max(float(np.abs(A[3]).max()), float(np.abs(B[3]).max()), sT)
+            j.close(f"latent coordinates of NEW samples equal up to sign [{lab}]", A[3], B[3] * sgn, tol * sZ * 10)
+            j.close(f"predictions for NEW samples equal [{lab}]", A[4], B[4], tol * max(float(np.abs(A[4]).max()), sY) * 10)
+            j.note("new_sample_pairs_compared")
             j.note("route_pairs_compared")
+    if case.get("many_rows"):
+        pc.many_rows_relation(j, X, Y, reg, a, k)
     j.nontrivial = len(views) >= 3
     j.sample = {
         "X": f"{X.shape} {case['kind']}",
